@@ -36,7 +36,7 @@ var jgLayouts = []struct{ name, ws string }{
 	{"none", ""}, {"space", " "}, {"tab", "\t"}, {"lf", "\n"}, {"crlf", "\r\n"}, {"cr", "\r"}, {"mixed", " \n\t"},
 }
 
-var nonASCII = strings.NewReplacer("<NONASCII-1>", "é日本", "<NONASCII-2>", "ключ")
+var nonASCII = strings.NewReplacer("<NONASCII-1>", "é日本", "<NONASCII-2>", "ключ", "<DEL>", "\x7f")
 
 func jgRender(toks []jgTok, layout int) string {
 	ws := jgLayouts[layout].ws
